@@ -9,3 +9,5 @@ BINS += c07_wto
 c07_wto_OBJS := c07_wto
 BINS += c19_containers
 c19_containers_OBJS := c19_containers
+BINS += e3_hist
+e3_hist_OBJS := e3_hist common/domreg $(DOM_OBJS)
